@@ -204,11 +204,14 @@ def mergeExisting (s : Store) (re : Entity) (l rh : String) (ce cc : Nat) (nh mp
   else if (reach s l).contains rh then { status := .nothing, localHead := some l, clockEdit := ce, clockCreate := cc }
   else if (reach s rh).contains l then
     { status := .updated, localHead := some rh, entityOps := re.ops, clockEdit := ce, clockCreate := cc }
+  -- the two histories must share a commit (their root), else joining them gives two roots
+  else if !(reach s l).any (fun h => (reach s rh).contains h) then
+    { status := .invalid, localHead := some l, clockEdit := ce, clockCreate := cc }
   else mergeDiverged s l rh ce cc nh mp au
 
-/-- `dag.merge` for one remote ref.  `nh`, `mp` and `au` are what the environment gives to the
-merge commit if one is written (its hash, its pack id, the merge author). -/
-def merge (s : Store) (localHead : Option String) (rh : String) (ce cc : Nat) (nh mp au : String) : MergeOut :=
+/-- `dag.merge` for one remote ref named after `refId`.  `nh`, `mp` and `au` are what the
+environment gives to the merge commit if one is written (its hash, its pack id, the merge author). -/
+def merge (s : Store) (refId : String) (localHead : Option String) (rh : String) (ce cc : Nat) (nh mp au : String) : MergeOut :=
   match read s rh with
   | .error _ => { status := .invalid, localHead := localHead, clockEdit := ce, clockCreate := cc }
   | .ok re =>
@@ -216,6 +219,9 @@ def merge (s : Store) (localHead : Option String) (rh : String) (ce cc : Nat) (n
     let ce1 := max ce (maxOf (re.packs.map (·.edit)))
     let cc1 := max cc (maxOf (re.packs.map (·.create)))
     if !entityValid re.ops then { status := .invalid, localHead := localHead, clockEdit := ce1, clockCreate := cc1 }
+    -- the name of the ref must be the id of the entity (the id of its first operation)
+    else if re.ops.head?.map (·.id) != some refId then
+      { status := .invalid, localHead := localHead, clockEdit := ce1, clockCreate := cc1 }
     else match localHead with
       | none => { status := .new, localHead := some rh, entityOps := re.ops, clockEdit := ce1, clockCreate := cc1 }
       | some l => mergeExisting s re l rh ce1 cc1 nh mp au
